@@ -43,25 +43,51 @@ theorem emplace_vecIter_spec (et : Ty) (hL : Law et.dict) (sz : Nat) (hsz : et.d
   obtain ⟨o, h1, h2, _⟩ := emplace_vecIter et hL sz hsz l hl xs hxs s hal hlen
   exact ⟨o, h1, h2⟩
 
-theorem emplace_vecArr_spec (et : Ty) (hL : Law et.dict) (sz : Nat) (hsz : et.dict.sized = some sz) (l : LenTy) (hl : l.Law)
-    (xs : List Bytes) (hxs : ∀ x ∈ xs, ValidImage et.dict x) : EmpSpec (.vec et l) (.vecArr xs) := by
-  intro s hal hlen
+/-- `vec::FromArray`: the contract, and acceptance exactly when the items fit the capacity -/
+theorem emplace_vecArr_iff (et : Ty) (hL : Law et.dict) (sz : Nat) (hsz : et.dict.sized = some sz) (l : LenTy) (hl : l.Law)
+    (xs : List Bytes) (hxs : ∀ x ∈ xs, ValidImage et.dict x) (s : Slice)
+    (hal : s.addr % (Ty.vec et l).dict.align = 0) (hlen : (Ty.vec et l).dict.minSize ≤ s.len) :
+    ∃ o, emplaceU (.vec et l) (.vecArr xs) s = .ok o ∧ EmpOk (Ty.vec et l).dict s o ∧
+      (o.res = .ok () ↔ xs.length ≤ min (if sz = 0 then usizeMax else
+        floorMul (s.len - max l.size et.dict.align) (max l.align et.dict.align) / sz) l.max) := by
   obtain ⟨o, h1, h2, _⟩ := emplace_vecIter et hL sz hsz l hl xs hxs s hal hlen
   simp only [Ty.dict, vecD] at hal hlen
+  have hss : et.dict.ssize = sz := by simp [Dict.ssize, hsz]
   have hls : l.size ≤ max l.size et.dict.align := Nat.le_max_left _ _
   obtain ⟨b0, hb0, hb0l⟩ := writeAt_ok (bs := s.bytes) (x := encLenTy l 0) (off := 0)
     (by rw [encLenTy_length]; simp only [Slice.len] at hlen; omega)
   have hslots := vecSlots_ok et.dict l s.len hlen
-  simp only [emplaceU, hb0, Res.bind_ok, hslots] at h1 ⊢
-  generalize min (if et.dict.ssize = 0 then usizeMax else floorMul (s.len - max l.size et.dict.align) (max l.align et.dict.align) / et.dict.ssize) l.max = cap at h1 ⊢
+  simp only [emplaceU, hb0, Res.bind_ok, hslots, hss] at h1 ⊢
+  generalize min (if sz = 0 then usizeMax else floorMul (s.len - max l.size et.dict.align) (max l.align et.dict.align) / sz) l.max = cap at h1 ⊢
   by_cases hover : cap < xs.length
   · simp only [hover, if_true]
-    refine ⟨_, rfl, hb0l, (by intro h; simp [EO.err] at h), ?_⟩
-    intro e he; simp only [EO.err, Except.error.injEq] at he; rw [← he]; exact Or.inl rfl
+    refine ⟨_, rfl, ⟨hb0l, (by intro h; simp [EO.err] at h), ?_⟩, ?_⟩
+    · intro e he; simp only [EO.err, Except.error.injEq] at he; rw [← he]; exact Or.inl rfl
+    · simp only [EO.err]; constructor
+      · intro h; cases h
+      · intro h; omega
   · simp only [hover, if_false]
     rw [List.take_of_length_le (by omega)] at h1
     simp only [hover, if_false] at h1
-    exact ⟨o, h1, h2⟩
+    refine ⟨o, h1, h2, ?_⟩
+    constructor
+    · intro _; omega
+    · intro _
+      cases hw : vecWriteElems sz (max l.size et.dict.align) xs 0 b0 with
+      | ok b1 =>
+        simp only [hw, Res.bind_ok] at h1
+        cases hw2 : writeAt b1 0 (encLenTy l xs.length) with
+        | ok b2 => simp only [hw2, Res.bind_ok, Res.ok.injEq] at h1; rw [← h1]; rfl
+        | err e => simp [hw2] at h1
+        | fault f => simp [hw2] at h1
+      | err e => simp [hw] at h1
+      | fault f => simp [hw] at h1
+
+theorem emplace_vecArr_spec (et : Ty) (hL : Law et.dict) (sz : Nat) (hsz : et.dict.sized = some sz) (l : LenTy) (hl : l.Law)
+    (xs : List Bytes) (hxs : ∀ x ∈ xs, ValidImage et.dict x) : EmpSpec (.vec et l) (.vecArr xs) := by
+  intro s hal hlen
+  obtain ⟨o, h1, h2, _⟩ := emplace_vecArr_iff et hL sz hsz l hl xs hxs s hal hlen
+  exact ⟨o, h1, h2⟩
 
 theorem emplace_strEmpty_spec (l : LenTy) (hl : l.Law) : EmpSpec (.str l) .strEmpty := by
   intro s hal hlen
